@@ -154,7 +154,16 @@ class Default(AgentStagingInputComponent):
             self._prof.prof('staging_in_start', uid=uid, msg=did)
 
             # agent stager only handles local actions
-            if action not in [rpc.COPY, rpc.LINK, rpc.MOVE, rpc.DOWNLOAD]:
+            if action not in [rpc.COPY, rpc.LINK, rpc.MOVE, rpc.DOWNLOAD,
+                              rpc.TARBALL]:
+                self._prof.prof('staging_in_skip', uid=uid, msg=did)
+                continue
+
+            # the client packs all TARBALL directives of a task into one
+            # tarball and adds a directive for that tarball - only that one
+            # needs action here (unpack), the packed ones are covered by it
+            if action == rpc.TARBALL and \
+               os.path.basename(ru.Url(tgt or '').path) != '%s.tar' % uid:
                 self._prof.prof('staging_in_skip', uid=uid, msg=did)
                 continue
 
